@@ -16,6 +16,7 @@ import (
 	"fmt"
 	"os"
 	"path/filepath"
+	"runtime"
 	"sort"
 	"strings"
 	"sync"
@@ -732,8 +733,19 @@ func rawToAny(r json.RawMessage) any {
 	return v
 }
 
+// statementForm: half of the matchers get their options through separate statements
+// (m := match.Any(..); m.ErrOnMissingPath(false)) instead of a call chain; both forms are documented use
+func statementForm(m *Matcher) bool {
+	n := 0
+	for _, p := range m.Paths {
+		n += len(p)
+	}
+	return n%2 == 1
+}
+
 func customCB(m *Matcher) func(any) (any, error) {
 	return func(val any) (any, error) {
+		runtime.Gosched() // user callbacks take time: let other goroutines in
 		if m.Err != "" {
 			return nil, errors.New(m.Err)
 		}
@@ -756,11 +768,21 @@ func jsonMatchers(ms []*Matcher) []match.JSONMatcher {
 				}
 			}
 			a := match.Any(m.Paths...)
-			if m.HasPH {
-				a = a.Placeholder(rawToAny(m.Placeholder))
-			}
-			if m.EOMP != nil {
-				a = a.ErrOnMissingPath(*m.EOMP)
+			if statementForm(m) {
+				// options set by separate statements on the matcher value, results ignored
+				if m.HasPH {
+					a.Placeholder(rawToAny(m.Placeholder))
+				}
+				if m.EOMP != nil {
+					a.ErrOnMissingPath(*m.EOMP)
+				}
+			} else {
+				if m.HasPH {
+					a = a.Placeholder(rawToAny(m.Placeholder))
+				}
+				if m.EOMP != nil {
+					a = a.ErrOnMissingPath(*m.EOMP)
+				}
 			}
 			if m.Shared != "" {
 				sharedAny[m.Shared] = a
@@ -771,7 +793,11 @@ func jsonMatchers(ms []*Matcher) []match.JSONMatcher {
 		case "custom":
 			c := match.Custom(m.Paths[0], customCB(m))
 			if m.EOMP != nil {
-				c = c.ErrOnMissingPath(*m.EOMP)
+				if statementForm(m) {
+					c.ErrOnMissingPath(*m.EOMP)
+				} else {
+					c = c.ErrOnMissingPath(*m.EOMP)
+				}
 			}
 			out = append(out, c)
 		default:
@@ -787,11 +813,21 @@ func yamlMatchers(ms []*Matcher) []match.YAMLMatcher {
 		switch m.M {
 		case "any":
 			a := match.Any(m.Paths...)
-			if m.HasPH {
-				a = a.Placeholder(rawToAny(m.Placeholder))
-			}
-			if m.EOMP != nil {
-				a = a.ErrOnMissingPath(*m.EOMP)
+			if statementForm(m) {
+				// options set by separate statements on the matcher value, results ignored
+				if m.HasPH {
+					a.Placeholder(rawToAny(m.Placeholder))
+				}
+				if m.EOMP != nil {
+					a.ErrOnMissingPath(*m.EOMP)
+				}
+			} else {
+				if m.HasPH {
+					a = a.Placeholder(rawToAny(m.Placeholder))
+				}
+				if m.EOMP != nil {
+					a = a.ErrOnMissingPath(*m.EOMP)
+				}
 			}
 			out = append(out, a)
 		case "type":
@@ -799,7 +835,11 @@ func yamlMatchers(ms []*Matcher) []match.YAMLMatcher {
 		case "custom":
 			c := match.Custom(m.Paths[0], customCB(m))
 			if m.EOMP != nil {
-				c = c.ErrOnMissingPath(*m.EOMP)
+				if statementForm(m) {
+					c.ErrOnMissingPath(*m.EOMP)
+				} else {
+					c = c.ErrOnMissingPath(*m.EOMP)
+				}
 			}
 			out = append(out, c)
 		default:
